@@ -5,8 +5,24 @@
     `newBatchContext`, accessed by the handlers, cleared by `handleBatchItemError`. `.obs` lists
     what the handlers read, as (item index, value).
   * `Batch.steps srv req` is the sequence of accesses to the holder this causes.
-  * `Placeholder.runWorld` runs ANY merge of the step sequences of ANY number of requests over one
-    heap of holders; `begin` (= `newBatchContext`) allocates a new holder.
+  * `Placeholder.runWorld impl` runs ANY merge of the step sequences of ANY number of calls of
+    `HandleRequest` over ONE heap of holders and the contexts through which they are reached
+    (connection contexts shared by requests, contexts nested in another request's, contexts derived
+    by middlewares). A call causes one RUN of the core handler per invocation of `next` by a
+    message middleware. Where a holder comes from (`Alloc`) and when a batch context is made
+    (`atEntry`: by `HandleRequest`; `atCore`: by `handleRequest`) are parameters: `Impl.go` is the
+    code of today, `Impl.fixed` the proposed repair; the engine `placemw` determines them on the
+    real code by probing.
+  WHAT IS PROVED (sections 4-6): with fresh allocation the scoping invariants `InvC` / `InvE` hold in
+  every reachable world, and
+    - `atCore`: every run of every call observes exactly what it observes on an empty holder
+      (`C15_full`), whatever all other calls do;
+    - the code of today (`atEntry` only): every CALL is isolated from every other call
+      (`request_scoped`, hence the full property when no message middleware re-invokes `next`:
+      `noninterference`), but the runs of one call share a holder: `C15_full Impl.go` is FALSE
+      (`C15_full_false_go` — reported as a finding);
+    - every hypothesis is needed: `reuse_leaks_nested`, `global_leaks_sequential`,
+      `global_reset_leaks_interleaved`.
   Values: `0` is the empty string.
 -/
 import KmipModel.Lemmas.BatchLemmas
@@ -133,49 +149,230 @@ theorem failure_then_observe (srv : Srv) (req : Req) (h : Accepted srv req) (j :
   rw [phBefore_succ srv req j a ha hns']
   simp [hfail]
 
-/-- 4. NONINTERFERENCE. Any number of requests, each an arbitrary access sequence preceded by the
-    creation of its batch context; ANY interleaving `sched` of their steps over one heap: request
-    `i` observes exactly what it observes alone. -/
-theorem noninterference_steps (progs : List (List PAct)) (sched : List (Nat × GStep))
-    (h : Interleaving (progs.map prog) sched) (i : Nat) (hi : i < progs.length) :
-    obsOf i (runWorld World.init sched).2 = (solo progs[i]).map Obs.val := by
-  apply runWorld_fresh sched World.init i progs[i] Inv_init rfl
-  rw [proj_of_interleaving h i]
-  simp [hi]
+/-! ### 4. scoping as an invariant of the world -/
+
+/-- 4a. `atCore`, fresh allocation: in EVERY reachable world — any steps of any requests in any
+    order, well-formed or not — the holders the handlers of the requests currently hold are
+    allocated and pairwise distinct. -/
+theorem scoping_invariant_core (impl : Impl) (hf : impl.alloc = .fresh) (hc : impl.atCore = true)
+    (sched : List (Nat × GStep)) : InvC (runWorld impl World.init sched).1 := by
+  suffices ∀ w, InvC w → InvC (runWorld impl w sched).1 from this _ InvC_init
+  induction sched with
+  | nil => intro w h; exact h
+  | cons e rest ih =>
+    intro w h
+    obtain ⟨q, s⟩ := e
+    simp only [runWorld]
+    exact ih _ (InvC_step impl hf hc w q s h)
+
+/-- 4b. the code of today (`atEntry` only), fresh allocation: in every reachable world the holders
+    made by `HandleRequest` are allocated and pairwise distinct, and the context a request's handlers
+    hold reaches the holder of their own request — even when it is nested in another request's. -/
+theorem scoping_invariant_entry (impl : Impl) (hf : impl.alloc = .fresh) (he : impl.atEntry = true)
+    (hc : impl.atCore = false) (sched : List (Nat × GStep)) :
+    InvE (runWorld impl World.init sched).1 := by
+  suffices ∀ w, InvE w → InvE (runWorld impl w sched).1 from this _ InvE_init
+  induction sched with
+  | nil => intro w h; exact h
+  | cons e rest ih =>
+    intro w h
+    obtain ⟨q, s⟩ := e
+    simp only [runWorld]
+    exact ih _ (InvE_step impl hf he hc w q s h)
+
+/-! ### 5. what a request observes -/
+
+/-- THE PROPERTY for an implementation `impl`: in any world — any number of other calls running any
+    steps, merged in any way — every run of a call of `HandleRequest` (one run per invocation of
+    `next` by a message middleware, on whatever message and derived context) observes exactly what it
+    observes on a holder that is empty when the run starts. -/
+def C15_full (impl : Impl) : Prop :=
+  ∀ (progs : List (List GStep)) (sched : List (Nat × GStep)), Interleaving progs sched →
+    ∀ (i : Nat) (p : Parent) (runs : List Run), progs[i]? = some (prog p runs) →
+      obsOf i (runWorld impl World.init sched).2 = (soloRuns runs).map Obs.val
+
+/-- 5a. fresh allocation by the core handler gives the full property. -/
+theorem C15_full_of_fresh_core (impl : Impl) (hf : impl.alloc = .fresh) (hc : impl.atCore = true) :
+    C15_full impl := by
+  intro progs sched h i p runs hi
+  have hp := proj_of_interleaving h i
+  rw [hi] at hp
+  simp only [Option.getD_some, prog] at hp
+  rw [runWorld_core_start impl hf hc i sched World.init p (runsSteps runs) InvC_init
+    (wellStarted_runs _ _) hp, expectCore_runs]
+
+/-- 5b. … in particular for the proposed repair. -/
+theorem C15_full_fixed : C15_full Impl.fixed := C15_full_of_fresh_core _ rfl rfl
+
+/-- 5c. THE CODE OF TODAY: a call of `HandleRequest` is isolated from every other call — what it
+    observes is what its runs, one after the other ON ONE HOLDER that is empty when the call starts,
+    observe; nothing any other call does (before, meanwhile, on the same connection, nested) shows. -/
+theorem request_scoped (impl : Impl) (hf : impl.alloc = .fresh) (he : impl.atEntry = true)
+    (hc : impl.atCore = false) (progs : List (List GStep)) (sched : List (Nat × GStep))
+    (h : Interleaving progs sched) (i : Nat) (p : Parent) (runs : List Run)
+    (hi : progs[i]? = some (prog p runs)) :
+    obsOf i (runWorld impl World.init sched).2 = (sharedRuns runs).map Obs.val := by
+  have hp := proj_of_interleaving h i
+  rw [hi] at hp
+  simp only [Option.getD_some, prog] at hp
+  rw [runWorld_entry_start impl hf he hc i sched World.init p (runsSteps runs) InvE_init
+    (wellStarted_runs _ _) hp, expectEntry_runs]
+  rfl
+
+/-- 5d. … and that is NOT the full property: a message middleware that calls `next` twice makes the
+    second run observe what the first one stored (`[.val 5]` instead of `[.val 0]`). Confirmed on the
+    real code (finding `place:run-not-empty-at-start`). -/
+theorem C15_full_false_go : ¬ C15_full Impl.go := by
+  intro h
+  have := h [prog (.conn 0) [⟨[], [.set 5]⟩, ⟨[], [.read]⟩]] _
+    (seqSched_interleaving _ [] (by simp)) 0 (.conn 0) _ rfl
+  revert this
+  decide
+
+/-- 4. NONINTERFERENCE for calls that cause ONE run (no message middleware re-invokes `next`), for
+    every implementation that allocates freshly, at either place: ANY interleaving of ANY number of
+    calls with any parents; call `i` observes exactly what it observes alone. -/
+theorem noninterference_steps (impl : Impl) (hf : impl.alloc = .fresh)
+    (h1 : impl.atEntry = true ∨ impl.atCore = true) (progs : List (Parent × List PAct))
+    (sched : List (Nat × GStep)) (h : Interleaving (progs.map fun p => prog1 p.1 p.2) sched)
+    (i : Nat) (hi : i < progs.length) :
+    obsOf i (runWorld impl World.init sched).2 = (solo progs[i].2).map Obs.val := by
+  have hget : (progs.map fun p => prog1 p.1 p.2)[i]? = some (prog progs[i].1 [⟨[], progs[i].2⟩]) := by
+    simp [hi, prog1]
+  cases hc : impl.atCore with
+  | true =>
+    rw [C15_full_of_fresh_core impl hf hc _ _ h i _ _ hget]
+    simp [soloRuns]
+  | false =>
+    have he : impl.atEntry = true := by simpa [hc] using h1
+    rw [request_scoped impl hf he hc _ _ h i _ _ hget]
+    simp [sharedRuns]
 
 /-- 4'. The same for requests processed by the batch executor: under any interleaving, the handlers
     of request `i` read exactly what `execFull` says they read when the request is alone. -/
-theorem noninterference (reqs : List (Srv × Req)) (sched : List (Nat × GStep))
-    (h : Interleaving (reqs.map fun p => prog (steps p.1 p.2)) sched) (i : Nat)
+theorem noninterference (impl : Impl) (hf : impl.alloc = .fresh)
+    (h1 : impl.atEntry = true ∨ impl.atCore = true) (reqs : List (Parent × Srv × Req))
+    (sched : List (Nat × GStep))
+    (h : Interleaving (reqs.map fun p => prog1 p.1 (steps p.2.1 p.2.2)) sched) (i : Nat)
     (hi : i < reqs.length) :
-    obsOf i (runWorld World.init sched).2 =
-      ((execFull reqs[i].1 reqs[i].2).obs.map (·.2)).map Obs.val := by
-  have h' : Interleaving ((reqs.map fun p => steps p.1 p.2).map prog) sched := by
+    obsOf i (runWorld impl World.init sched).2 =
+      ((execFull reqs[i].2.1 reqs[i].2.2).obs.map (·.2)).map Obs.val := by
+  have h' : Interleaving ((reqs.map fun p => (p.1, steps p.2.1 p.2.2)).map
+      fun p => prog1 p.1 p.2) sched := by
     simpa [List.map_map, Function.comp_def] using h
-  have := noninterference_steps (reqs.map fun p => steps p.1 p.2) sched h' i (by simpa using hi)
+  have := noninterference_steps impl hf h1 (reqs.map fun p => (p.1, steps p.2.1 p.2.2)) sched h' i
+    (by simpa using hi)
   rw [this, obs_eq_solo]
   simp
 
-/-- 5. Requests one after the other (one connection, or several) are a particular interleaving. -/
-theorem sequential (reqs : List (Srv × Req)) (i : Nat) (hi : i < reqs.length) :
-    obsOf i (runWorld World.init (seqSched 0 (reqs.map fun p => prog (steps p.1 p.2)))).2 =
-      ((execFull reqs[i].1 reqs[i].2).obs.map (·.2)).map Obs.val :=
-  noninterference reqs _ (by simpa using seqSched_interleaving _ [] (by simp)) i hi
+/-- 4''. With the core handler allocating (`Impl.fixed`), also under message middlewares: a call
+    whose chain executes the messages `msgs` (a retry: the same message several times; a
+    substitution: other messages), each after deriving contexts, observes for each of them exactly
+    what `execFull` says — whatever the other calls do. -/
+theorem noninterference_runs (impl : Impl) (hf : impl.alloc = .fresh) (hc : impl.atCore = true)
+    (progs : List (List GStep)) (sched : List (Nat × GStep)) (h : Interleaving progs sched)
+    (i : Nat) (p : Parent) (msgs : List (List Nat × Srv × Req))
+    (hi : progs[i]? = some (prog p (msgs.map fun m => ⟨m.1, steps m.2.1 m.2.2⟩))) :
+    obsOf i (runWorld impl World.init sched).2 =
+      ((msgs.map fun m => (execFull m.2.1 m.2.2).obs.map (·.2)).flatten).map Obs.val := by
+  rw [C15_full_of_fresh_core impl hf hc _ _ h i p _ hi]
+  simp [soloRuns, List.map_map, Function.comp_def, obs_eq_solo]
 
-/-- 6. Never a foreign value: under any interleaving, whatever request `i` observes is `""` or a
-    value that request `i` itself stored. -/
-theorem never_foreign (progs : List (List PAct)) (sched : List (Nat × GStep))
-    (h : Interleaving (progs.map prog) sched) (i : Nat) (hi : i < progs.length) (o : Obs)
-    (ho : o ∈ obsOf i (runWorld World.init sched).2) :
-    ∃ v, o = .val v ∧ (v = 0 ∨ PAct.set v ∈ progs[i]) := by
-  rw [noninterference_steps progs sched h i hi] at ho
+/-- 5. Requests one after the other on ONE connection (the same parent context object for all of
+    them) are a particular interleaving. -/
+theorem sequential (impl : Impl) (hf : impl.alloc = .fresh)
+    (h1 : impl.atEntry = true ∨ impl.atCore = true) (reqs : List (Srv × Req)) (i : Nat)
+    (hi : i < reqs.length) :
+    obsOf i (runWorld impl World.init
+      (seqSched 0 (reqs.map fun p => prog1 (.conn 0) (steps p.1 p.2)))).2 =
+      ((execFull reqs[i].1 reqs[i].2).obs.map (·.2)).map Obs.val := by
+  have := noninterference impl hf h1 (reqs.map fun p => (Parent.conn 0, p.1, p.2)) _
+    (by simpa [List.map_map, Function.comp_def] using
+      seqSched_interleaving (reqs.map fun p => prog1 (.conn 0) (steps p.1 p.2)) [] (by simp))
+    i (by simpa using hi)
+  simpa using this
+
+/-- 6. Never a foreign value, for the code of today and ANY chain of message middlewares: whatever
+    a call observes is `""` or a value that a run OF THE SAME CALL stored. -/
+theorem never_foreign (impl : Impl) (hf : impl.alloc = .fresh) (he : impl.atEntry = true)
+    (hc : impl.atCore = false) (progs : List (List GStep)) (sched : List (Nat × GStep))
+    (h : Interleaving progs sched) (i : Nat) (p : Parent) (runs : List Run)
+    (hi : progs[i]? = some (prog p runs)) (o : Obs)
+    (ho : o ∈ obsOf i (runWorld impl World.init sched).2) :
+    ∃ v, o = .val v ∧ (v = 0 ∨ ∃ rn ∈ runs, PAct.set v ∈ rn.acts) := by
+  rw [request_scoped impl hf he hc progs sched h i p runs hi] at ho
   simp only [List.mem_map] at ho
   obtain ⟨v, hv, rfl⟩ := ho
   refine ⟨v, rfl, ?_⟩
-  rcases runActs_obs_origin 0 progs[i] v hv with h | h | h
+  rcases runActs_obs_origin 0 _ v hv with h | h | h
+  · exact Or.inl h
+  · exact Or.inl h
+  · right
+    simp only [List.mem_flatten, List.mem_map] at h
+    obtain ⟨l, ⟨rn, hrn, rfl⟩, hl⟩ := h
+    exact ⟨rn, hrn, hl⟩
+
+/-- 6'. … and with the core handler allocating, by the same RUN. -/
+theorem never_foreign_run (impl : Impl) (hf : impl.alloc = .fresh) (hc : impl.atCore = true)
+    (progs : List (List GStep)) (sched : List (Nat × GStep)) (h : Interleaving progs sched)
+    (i : Nat) (p : Parent) (rn : Run) (hi : progs[i]? = some (prog p [rn])) (o : Obs)
+    (ho : o ∈ obsOf i (runWorld impl World.init sched).2) :
+    ∃ v, o = .val v ∧ (v = 0 ∨ PAct.set v ∈ rn.acts) := by
+  rw [C15_full_of_fresh_core impl hf hc progs sched h i p _ hi] at ho
+  simp only [soloRuns, List.map_cons, List.map_nil, List.flatten_cons, List.flatten_nil,
+    List.append_nil, List.mem_map] at ho
+  obtain ⟨v, hv, rfl⟩ := ho
+  refine ⟨v, rfl, ?_⟩
+  rcases runActs_obs_origin 0 rn.acts v hv with h | h | h
   · exact Or.inl h
   · exact Or.inl h
   · exact Or.inr h
+
+/-! ### 6. every hypothesis is needed: implementations that share -/
+
+/-- holder reused when the parent context already has one (e.g. walking up to a holder attached
+    further out): a request nested in another one reads what that one stored. -/
+theorem reuse_leaks_nested :
+    obsOf 1 (runWorld ⟨.reuse, false, true, false⟩ World.init
+      (seqSched 0 [prog1 (.conn 0) [.set 5], prog1 (.inside 0) [.read]])).2 = [.val 5] := by
+  decide
+
+/-- one package-level holder: the NEXT request, on another connection, reads the value. -/
+theorem global_leaks_sequential :
+    obsOf 1 (runWorld ⟨.global, false, true, false⟩ World.init
+      (seqSched 0 [prog1 (.conn 0) [.set 5], prog1 (.conn 1) [.read]])).2 = [.val 5] := by
+  decide
+
+/-- one holder that is reset by every `newBatchContext` (a pool handing out the same object):
+    sequential histories are fine, an interleaving is not — request 0 loses its own value and then
+    reads the one of request 1. -/
+theorem global_reset_leaks_interleaved :
+    obsOf 0 (runWorld ⟨.global, true, true, false⟩ World.init
+      (mergeBy [0, 0, 0, 1, 1, 0, 1, 0]
+        [prog1 (.conn 0) [.set 5, .read, .read], prog1 (.conn 1) [.set 7]])).2 = [.val 0, .val 7] ∧
+    obsOf 1 (runWorld ⟨.global, true, true, false⟩ World.init
+      (seqSched 0 [prog1 (.conn 0) [.set 5], prog1 (.conn 1) [.read]])).2 = [.val 0] := by
+  decide
+
+/-- no batch context at all: `SetIdPlaceholder` panics (the accessor's documented behaviour). -/
+theorem no_context_panics :
+    obsOf 0 (runWorld ⟨.fresh, false, false, false⟩ World.init
+      (seqSched 0 [prog1 (.conn 0) [.set 5, .read]])).2 = [.panic, .val 0] := by
+  decide
+
+/-! ### 7. the accessor `GetIdOrPlaceholder` -/
+
+/-- an explicit identifier wins over the placeholder; -/
+theorem resolve_explicit (ph reqId : Val) (h : reqId ≠ 0) : resolve ph reqId = some reqId := by
+  simp [resolve, h]
+
+/-- without one, the answer is the placeholder of the holder the context reaches — hence, by the
+    theorems above, never a value of another request; -/
+theorem resolve_placeholder (ph : Val) (h : ph ≠ 0) : resolve ph 0 = some ph := by
+  simp [resolve, h]
+
+/-- and an error when both are empty. -/
+theorem resolve_empty : resolve 0 0 = none := by decide
 
 /-! ### non-vacuity -/
 
@@ -203,19 +400,50 @@ example : fails srv0 (mk [.set 5] .success) = false ∧
     (writes (mk [.set 5] .success).acts).getLast? = some 5 ∧
     fails srv0 (mk [.set 6] .plainErr) = true := by decide
 
-/-- a genuine interleaving of the two requests (B moves between the items of A), and what each
-    observes in it. -/
+/-- a genuine interleaving of the two requests ON ONE CONNECTION (B moves between the items of A),
+    and what each observes in it. -/
 def sched0 : List (Nat × GStep) :=
-  mergeBy [0, 0, 1, 1, 0, 1, 0, 0, 1, 0] [prog (steps srv0 reqA), prog (steps srv0 reqB)]
+  mergeBy [0, 0, 0, 1, 1, 1, 0, 1, 0, 0, 1, 0]
+    [prog1 (.conn 0) (steps srv0 reqA), prog1 (.conn 0) (steps srv0 reqB)]
 
-example : Interleaving ([(srv0, reqA), (srv0, reqB)].map fun p => prog (steps p.1 p.2)) sched0 :=
+example : Interleaving
+    ([(Parent.conn 0, srv0, reqA), (Parent.conn 0, srv0, reqB)].map
+      fun p => prog1 p.1 (steps p.2.1 p.2.2)) sched0 :=
   mergeBy_interleaving _ _
 
-example : sched0 = [(0, .begin), (0, .act (.set 5)), (1, .begin), (1, .act .read),
-    (0, .act .read), (1, .act (.set 9)), (0, .act (.set 6)), (0, .act .clear), (1, .act .read),
-    (0, .act .read)] := by decide
+example : sched0 = [(0, .enter (.conn 0)), (0, .core), (0, .act (.set 5)), (1, .enter (.conn 0)),
+    (1, .core), (1, .act .read), (0, .act .read), (1, .act (.set 9)), (0, .act (.set 6)),
+    (0, .act .clear), (1, .act .read), (0, .act .read)] := by decide
 
-example : obsOf 0 (runWorld World.init sched0).2 = [.val 5, .val 0] ∧
-    obsOf 1 (runWorld World.init sched0).2 = [.val 0, .val 9] := by decide
+example : obsOf 0 (runWorld Impl.go World.init sched0).2 = [.val 5, .val 0] ∧
+    obsOf 1 (runWorld Impl.go World.init sched0).2 = [.val 0, .val 9] := by decide
+
+/-- request B NESTED in request A's handler context (a forwarding handler) while A goes on: the
+    innermost binding shadows A's; A still finds its own holder afterwards. -/
+def sched1 : List (Nat × GStep) :=
+  mergeBy [0, 0, 0, 1, 1, 1, 1, 0, 1]
+    [prog1 (.conn 0) [.set 5, .read], prog1 (.inside 0) [.read, .set 9, .read]]
+
+example : obsOf 0 (runWorld Impl.go World.init sched1).2 = [.val 5] ∧
+    obsOf 1 (runWorld Impl.go World.init sched1).2 = [.val 0, .val 9] ∧
+    (runWorld Impl.go World.init sched1).1.cur 1 = some [.batch 1, .batch 0, .other 0] := by decide
+
+/-- a call whose message middleware derives a context and retries: two runs of `[read, set 5]`.
+    The code of today: the second run reads 5. The repair: both runs read "". -/
+def retry : List GStep := prog (.conn 0) [⟨[], [.read, .set 5]⟩, ⟨[7], [.read, .set 5]⟩]
+
+example : retry = [.enter (.conn 0), .core, .act .read, .act (.set 5), .wrap 7, .core, .act .read,
+    .act (.set 5)] := by decide
+
+example : obsOf 0 (runWorld Impl.go World.init (seqSched 0 [retry])).2 = [.val 0, .val 5] ∧
+    obsOf 0 (runWorld Impl.fixed World.init (seqSched 0 [retry])).2 = [.val 0, .val 0] ∧
+    soloRuns [⟨[], [.read, .set 5]⟩, ⟨[7], [.read, .set 5]⟩] = [0, 0] ∧
+    sharedRuns [⟨[], [.read, .set 5]⟩, ⟨[7], [.read, .set 5]⟩] = [0, 5] := by decide
+
+/-- the invariants are not vacuous: four holders allocated (two calls, at entry and by the core),
+    the handlers of the two requests holding one each. -/
+example : (runWorld Impl.fixed World.init sched1).1.heap.length = 4 ∧
+    ((runWorld Impl.fixed World.init sched1).1.cur 0).bind holder = some 1 ∧
+    ((runWorld Impl.fixed World.init sched1).1.cur 1).bind holder = some 3 := by decide
 
 end Kmip.C15
